@@ -338,8 +338,12 @@ func runOnce(input []byte, cfg runCfg, rep *reporter) *runResult {
 					res.firstIssue = is.String()
 				}
 				if cfg.Validate && res.reader == "zng" {
+					// While C11-validate-set-interior is open, anything wrong inside a
+					// set element has that one cause (Validate never looks there).
+					// Once it is closed, an inconsistency inside a set is attributed
+					// like anywhere else, to the check Validate lacks for its class.
 					sig := "C11/zng/validate-misses-" + is.Class
-					if is.InSet {
+					if is.InSet && vt.IsKnown("C11/zng/validate-skips-set-interior") {
 						sig = "C11/zng/validate-skips-set-interior"
 					}
 					rep.report(sig, "%s: with Validate on the ZNG reader handed out value #%d of type %s whose bytes %x are not consistent with the type: %s",
@@ -619,7 +623,10 @@ func vngPreflight(meta []byte, rep *reporter) (ok bool) {
 		return true
 	}
 	checkAlloc("C11/alloc/vng", "decoding the metadata section the way vng.readMetadata does (zngio reader with default options, Max = 1 GiB)")
-	if oracle.HasNullUnion(*val) {
+	if oracle.HasNullUnion(*val) && vt.IsKnown("C11/fatal-stack-overflow@/zson.(*UnmarshalZNGContext).lookupGoType[null-union]") {
+		// (Only while C11-unmarshal-null-union is listed as open.  With the
+		// finding closed the object goes to the reader like any other: a
+		// regression then shows as a dead worker, signature `crash`.)
 		// zson.(*UnmarshalZNGContext).lookupGoType: `case *zed.TypeUnion: return
 		// u.lookupGoType(typ.Untag(bytes))`, and TypeUnion.Untag(nil) returns the
 		// union type itself with nil bytes: a null union value under an
